@@ -236,5 +236,8 @@ func TestVerifC10(t *testing.T) {
 	kit.Run(t, "C10", "panicvals", kit.N(1200, 20000), func(c *kit.Case) { execute(c, planPanicVals(c)) })
 	kit.Run(t, "C10", "sentinel", kit.N(300, 5000), func(c *kit.Case) { execute(c, planSentinel(c)) })
 	kit.Run(t, "C10", "combo", kit.N(800, 30000), func(c *kit.Case) { execute(c, planCombo(c, combos)) })
+	pcombos := parkCombos()
+	kit.Run(t, "C10", "genpark-clean", kit.N(240, 6000), func(c *kit.Case) { execute(c, planGenParkClean(c)) })
+	kit.Run(t, "C10", "genpark", kit.N(8*len(pcombos), 120*len(pcombos)), func(c *kit.Case) { execute(c, planGenPark(c, pcombos)) })
 	kit.End()
 }
